@@ -51,6 +51,8 @@ static TRACE: AtomicBool = AtomicBool::new(false);
 static GROW_DELAY_US: AtomicU64 = AtomicU64::new(0);
 static RULE_VIOLATIONS: std::sync::Mutex<Vec<String>> = std::sync::Mutex::new(Vec::new());
 static LOG_UNSYNCED: std::sync::Mutex<std::collections::BTreeMap<String, u64>> = std::sync::Mutex::new(std::collections::BTreeMap::new());
+/// rule R1 only (used together with failure injection, where an aborted flush makes R4 meaningless)
+static R4_OFF: AtomicBool = AtomicBool::new(false);
 pub static R1_CHECKS: AtomicU64 = AtomicU64::new(0);
 pub static R4_CHECKS: AtomicU64 = AtomicU64::new(0);
 pub static R4_FILES: AtomicU64 = AtomicU64::new(0);
@@ -77,6 +79,23 @@ pub fn stop_trace() -> Vec<String> {
 	TRACE.store(false, Ordering::SeqCst);
 	GROW_DELAY_US.store(0, Ordering::SeqCst);
 	stop();
+	std::mem::take(&mut *RULE_VIOLATIONS.lock().unwrap())
+}
+
+/// Evaluate rule R1 on the observed calls while failures are being injected (C16, threaded): a
+/// log file whose sync FAILED still has unsynced bytes and must not be read for enactment.
+/// Call after `start`; `take_rule_violations` collects.
+pub fn trace_r1(on: bool) {
+	if on {
+		RULE_VIOLATIONS.lock().unwrap().clear();
+		LOG_UNSYNCED.lock().unwrap().clear();
+		R1_CHECKS.store(0, Ordering::SeqCst);
+	}
+	R4_OFF.store(on, Ordering::SeqCst);
+	TRACE.store(on, Ordering::SeqCst);
+}
+
+pub fn take_rule_violations() -> Vec<String> {
 	std::mem::take(&mut *RULE_VIOLATIONS.lock().unwrap())
 }
 
@@ -182,7 +201,7 @@ fn trace_msync(addr: usize, len: usize) {
 fn trace_log_truncate(log: &str) {
 	let started = CYCLE.with(|c| c.borrow_mut().1.take());
 	let synced = CYCLE.with(|c| std::mem::take(&mut c.borrow_mut().0));
-	if let Some(at_start) = started {
+	if let Some(at_start) = started.filter(|_| !R4_OFF.load(Ordering::Relaxed)) {
 		let (now, _) = mapped_files(0);
 		R4_CHECKS.fetch_add(1, Ordering::Relaxed);
 		for f in at_start.intersection(&now) {
